@@ -18,6 +18,8 @@ AllUnits == {
   \* repetition of a structure whose COUNT overstates (the two mechanisms of Fault and Scale together): n iloc / iinf boxes that
   \* each declare 65535 items and hold none; n CMT1 boxes whose 84 text entries each declare a 4097-byte value
   U("bmff", "ilocMax", 1), U("bmff", "iinfMax", 1), U("bmff", "cmtAscii4097", 330),
+  U("bmff", "cmtTiny", 2),                 \* n smallest possible CMT1 boxes (a TIFF header and an empty directory): one Exif block each
+  U("bmff", "preview", 16384), U("bmff", "preview", 393216),     \* a truthful preview image of 256 KiB / 6 MiB
   U("jpeg", "app", 1), U("jpeg", "exifSeg", 8), U("jpeg", "com64k", 4096),
   U("png", "chunk", 1) }
 \* a long token is not repeated; a small record is repeated up to the byte budget
